@@ -981,6 +981,28 @@ def prefix_probe(chk, stats):
                                    f"{differ}; after saving {len(new)} rows the restored series " +
                                    ("raised " + err if got is None else "are not the saved ones"),
                                    "case": {"prefix_probe": {"r": r, "extra": extra, "differ": differ}}})
+    # an EMPTY checkpoint of another run (calibrate(0) / create_checkpoint before any batch) with another series layout:
+    # zero rows are a prefix of anything only if the row layout is the same
+    for old_shape in ((0, 2, 3, 1), (0, 1, 3, 1), (0, 3, 3, 1), (0, 2, 1, 1), (0, 2, 3, 2)):
+        for k in (1, 2):
+            if root.exists():
+                shutil.rmtree(root)
+            new = g.random((k, 2, 3, 1)) if old_shape[1] != 2 or old_shape[2:] != (3, 1) else g.random((k, 1, 3, 1))
+            old = np.zeros(old_shape)
+            n += 1
+            stats["prefix-probe-empty"] += 1
+            got, err = None, None
+            try:
+                save(root, old)
+                save(root, new)
+                got = load_calibrator_state(root, 1)[19]
+            except Exception as e:  # noqa: BLE001
+                err = f"{type(e).__name__}: {e}"
+            if got is None or got.shape != new.shape or got.tobytes() != new.tobytes():
+                chk.violation({"kind": "stale_series", "variant": "empty-other-layout"},
+                              {"failed": "oracle:series", "detail": f"folder held an empty checkpoint with series layout {old_shape[1:]}; after saving "
+                               f"{new.shape} the restored series " + (f"raised {err}" if got is None else f"have shape {got.shape}"),
+                               "case": {"prefix_probe": {"old_shape": list(old_shape), "new_shape": list(new.shape)}}})
     shutil.rmtree(root, ignore_errors=True)
     return n
 
